@@ -127,12 +127,13 @@ R_MYDIV = 'MySQL: integer / integer yields a decimal, not an integer (operator c
 R_MYAVG = 'MySQL: AVG() of exact-value (integer) arguments is a DECIMAL rounded to scale + 4 digits (div_precision_increment), not a double'
 R_MYDATE = 'MySQL: result type of COALESCE / CASE / LEAST / GREATEST mixing a DATE column with a date parameter (a string literal under pymysql) is a string; type aggregation is not modelled'
 R_PGCONCAT = 'PostgreSQL: || with a floating-point operand (the text form of a double differs between the substrate and PostgreSQL; || cannot be modelled)'
+R_POW = 'division / modulo of a ** result: Python gives an int or a float depending on the sign of the exponent, SQL power() always a double, and / // % are type-sensitive on the substrate'
 R_ORD = 'collation: ordering of strings (<, <=, >, >=, between, min/max, ORDER BY) follows the database collation'
 R_MYEQ = 'collation: MySQL string equality / DISTINCT / GROUP BY / IN are case- and accent-insensitive and pad-space under the default collation'
 R_ZERO = 'PostgreSQL raises division_by_zero for the whole statement (Python raises ZeroDivisionError on that row, too)'
 ORDER_OPS = ('lt', 'le', 'gt', 'ge', 'between', 'min2', 'max2', 'min3', 'max3', 'min', 'max', 'qmin', 'qmax')
 EQ_OPS = ('eq', 'ne', 'in_list', 'not_in_list', 'in_ms', 'not_in_ms', 'chain_eq_eq', 'count', 'qcount')
-STATIC_REASONS = (R_DATE, R_GC, R_DECDIV, R_FMOD, R_MYDIV, R_ORD, R_MYEQ, R_MYAVG, R_MYDATE, R_PGCONCAT)
+STATIC_REASONS = (R_DATE, R_GC, R_DECDIV, R_FMOD, R_MYDIV, R_ORD, R_MYEQ, R_MYAVG, R_MYDATE, R_PGCONCAT, R_POW)
 
 def _item(t): return qx.item_t(t) if qx.is_ms(t) else t
 
@@ -143,7 +144,8 @@ def node_reason(d, n):
     ts = [_item(c.t) for c in n.a]
     if op in ('truediv', 'floordiv', 'mod'):
         if DEC in ts: return R_DECDIV
-        if op == 'mod' and (FLOAT in ts or any(m.op == 'pow' for c in n.a for m in qx.walk(c))): return R_FMOD      # int ** negative int is a float
+        if op == 'mod' and FLOAT in ts: return R_FMOD
+        if any(m.op == 'pow' and m.t == INT for c in n.a for m in qx.walk(c)): return R_POW
         if d == 'mysql' and op != 'mod' and ts == [INT, INT]: return R_MYDIV
     if d == 'postgres' and op in ('concat', 'concat_fn2', 'concat_fn3', 'fstr2') \
             and any(c.t == FLOAT or any(m.op in ('pow', 'truediv', 'to_float') for m in qx.walk(c)) for c in n.a): return R_PGCONCAT
